@@ -221,8 +221,9 @@ impl NtpDuration {
     /// Convert to an f64; required for statistical calculations
     /// (e.g. in clock filtering)
     pub fn to_seconds(self) -> f64 {
-        // dividing by u32::MAX moves the decimal point to the right position
-        self.duration as f64 / u32::MAX as f64
+        // one second is 2^32 units, dividing by that moves the decimal point
+        // to the right position (and is exact for a power of two)
+        self.duration as f64 / (1u64 << 32) as f64
     }
 
     pub fn from_seconds(seconds: f64) -> Self {
@@ -233,7 +234,9 @@ impl NtpDuration {
 
         // Ensure proper saturating behaviour
         let duration = match i as i64 {
-            i if i32::try_from(i).is_ok() => (i << 32) | (f * u32::MAX as f64) as i64,
+            // f is in [0, 1] (1 only through rounding of a tiny negative input), so
+            // the fraction is added rather than or-ed into the seconds part
+            i if i32::try_from(i).is_ok() => (i << 32) + (f * (1u64 << 32) as f64) as i64,
             i if i < i32::MIN as i64 => i64::MIN,
             i if i > i32::MAX as i64 => i64::MAX,
             _ => unreachable!(),
